@@ -3,4 +3,4 @@ NEXT Next
 CONSTANTS
   Depth = 1
   Shapes = {0, 1, 2, 3, 4, 5, 6, 7, 8}
-INVARIANTS DesignOK EmitVec
+INVARIANTS DesignOK BlocksOK EmitVec
